@@ -53,6 +53,8 @@ type RuleStat struct {
 
 // Ctx is the loaded program plus the obligation log.
 type Ctx struct {
+	lexTabs    *lexTables // cached lexer tables (rules_tab2.go)
+	lexTabsErr error
 	globalTabs map[*ssa.Global]fval // immutable package-level tables seen by the folder (fold.go)
 	wm         *writerModel         // lazily built model of midix.MIDIWriter (emission.go)
 	RepoDir    string
